@@ -200,6 +200,12 @@ func buildC20(tier string) sim.Scenario {
 		if w.Failed() {
 			return
 		}
+		if !ok && plan.step == 6 && plan.kind == "reset" {
+			// a reset destroys what the peer has not read yet: the camera's PLAY answer may be lost with it, and then the
+			// pull fails like any other handshake failure (judged by the clean-up rules below)
+			expectOK = false
+			w.Probe("c20.reset-destroyed-the-play-answer")
+		}
 		if ok != expectOK {
 			if expectOK {
 				w.Fail("C20/pull-failed", "camera behaves (auth=%s, fault %s@%s) but DESCRIBE %s was answered %d", plan.auth, plan.kind, stepName(plan.step), tg.path, status)
@@ -269,16 +275,33 @@ func buildC20(tier string) sim.Scenario {
 					cl.drain(time.Duration(plan.packets)*plan.gap + 100*time.Second)
 				}
 			}
-			// frames are the camera's packets, contiguous per channel
-			perCh := map[int][]string{}
-			for _, p := range cam.sent {
-				ch := map[byte]int{0: 0, 2: 2}[p.Channel]
-				perCh[ch] = append(perCh[ch], string(p.Data))
+			// frames are a camera's packets, contiguous per channel (when the first camera fails right at the requester's
+			// PLAY, that PLAY pulls afresh and the media then comes from the next camera connection)
+			type chKey struct{ cam, ch int }
+			perCh := map[chKey][]string{}
+			owner := map[string]int{}
+			farm.mu.Lock()
+			allCams := append([]*fakeCam(nil), farm.cams...)
+			farm.mu.Unlock()
+			for ci, c := range allCams {
+				c.mu.Lock()
+				for _, p := range c.sent {
+					ch := map[byte]int{0: 0, 2: 2}[p.Channel]
+					perCh[chKey{ci, ch}] = append(perCh[chKey{ci, ch}], string(p.Data))
+					owner[string(p.Data)] = ci
+				}
+				c.mu.Unlock()
 			}
-			next := map[int]int{}
+			next := map[chKey]int{}
 			for i, f := range cl.frames {
-				q := perCh[f.Channel]
-				k, started := next[f.Channel]
+				ci, known := owner[string(f.Payload)]
+				if !known {
+					w.Fail("C20/relay", "frame %d relayed to the requester (channel %d, %d bytes) is no packet any camera connection sent", i, f.Channel, len(f.Payload))
+					return
+				}
+				key := chKey{ci, f.Channel}
+				q := perCh[key]
+				k, started := next[key]
 				if !started {
 					for j := range q {
 						if q[j] == string(f.Payload) {
@@ -291,7 +314,7 @@ func buildC20(tier string) sim.Scenario {
 					w.Fail("C20/relay", "frame %d relayed to the requester (channel %d, %d bytes) is not the camera's next packet on that channel", i, f.Channel, len(f.Payload))
 					return
 				}
-				next[f.Channel] = k + 1
+				next[key] = k + 1
 			}
 			if played && len(cl.frames) == 0 && len(cam.sent)-sentAtPlay > 10 {
 				w.Fail("C20/relay", "the camera sent %d packets after the requester's PLAY, the requester received none", len(cam.sent)-sentAtPlay)
